@@ -70,7 +70,10 @@ class Universe:
         self.sym_of_id = {e["id"]: s for s, e in self.conc.items()}
         self.rev = {}
         for s in list(self.symtab):
-            self.rev[self.symtab[s]] = s
+            try:
+                self.rev[self.symtab[s]] = s
+            except TypeError:
+                pass        # unhashable concrete values (lists, objects as tag items) have no reverse mapping
 
     # ---- symbols -> concrete
     def conc_value(self, sym, name=None):
@@ -88,7 +91,10 @@ class Universe:
             v = self.palette(sym)
         self.symtab[sym] = v
         if hasattr(self, "rev"):
-            self.rev[v] = sym
+            try:
+                self.rev[v] = sym
+            except TypeError:
+                pass
         return v
 
     def abs_value(self, concrete):
